@@ -12,7 +12,7 @@ CHECKS = {
              "user function supplied through Config.python_modules; by simulation up to 8 grown nodes / 3 states / 2 controls / 2 calibrations, "
              "look-alike names, dt positive, zero and negative) with the exact rational value of every update expression; every behaviour is written "
              "down in its own random presentation (declaration order, container, proactive_simplify) and replayed into python.compile(...).model "
-             "with CSE off and on; results handed out earlier are re-read at the end of the behaviour. Thorough tier: every model / filter call the repository's own test-suite executes is recorded (pytest plugin, /repo untouched), projected against the Jacobian trees Derive.tla derives from the recorded definition and validated by EKFCalls_Trace.tla. One State object that is overwritten in place between evaluations is evaluated before a fresh object with the same values.",
+             "with CSE off and on; results handed out earlier are re-read at the end of the behaviour. Thorough tier: every model / filter call the repository's own test-suite executes is recorded (pytest plugin, /repo untouched), projected against the Jacobian trees Derive.tla derives from the recorded definition and validated by EKFCalls_Trace.tla. One State object that is overwritten in place between evaluations is evaluated before a fresh object with the same values. A further family grows expressions from + * and a user-supplied function by chaining, so that the user function sits inside shared sub-terms.",
         design_ref="DESIGN.md section 4 C01",
         note="Trusted: TLC + Rational.tla exact arithmetic; the 30-line reference interpreter for elementary "
              "functions (cross-checked against TLC on the rational fragment on every run); tolerance 1e-9 relative.",
@@ -25,7 +25,7 @@ CHECKS = {
              "simulated histories are replayed into runtime.py and ManagedFilter.h (4 tag combinations, also shifted by 2^20 s) on a dyadic grid "
              "where the issued steps must equal the plan exactly; on decimal times (max_dt 0.01-0.3 s), on single moves of up to 144 000 "
              "sub-steps and on moves within 1e-10..1e-8 s of a whole number of large steps, recorded travels are validated by TLC against "
-             "PlanOK (MF_Trace.tla); thorough tier: the repository's own runtime tests under a recording plugin.",
+             "PlanOK (MF_Trace.tla); thorough tier: the repository's own runtime tests under a recording plugin. Moves of 1e-10..2e-9 s in both directions are included.",
         design_ref="DESIGN.md section 4 C10",
         note="Trusted: recording stand-in filters; g++ 12; the dyadic grid argument (all float time arithmetic exact). "
              "Decimal (non-representable) step sizes are covered by the trace-validation part (PlanOK).",
@@ -65,7 +65,7 @@ CHECKS = {
         text="TLC computes the Kalman correction exactly for sensors with 1-4 readings of unequal noise and checks on every state the stated "
              "consequences (z = h(x) leaves x unchanged, P' symmetric PSD, P - P' PSD, S symmetric PD) and the rescaling theorem InvRescale "
              "(one reading measured in other units changes nothing); behaviours are replayed into sensor_model (state, covariance, recorded "
-             "innovation, S, by name), and so are their rescaled twins with factor 2^22 (eigenvalues of S spread over 13 decades). Thorough tier: every model / filter call the repository's own test-suite executes is recorded (pytest plugin, /repo untouched), projected against the Jacobian trees Derive.tla derives from the recorded definition and validated by EKFCalls_Trace.tla.",
+             "innovation, S, by name), and so are their rescaled twins with factor 2^22 (eigenvalues of S spread over 13 decades). Thorough tier: every model / filter call the repository's own test-suite executes is recorded (pytest plugin, /repo untouched), projected against the Jacobian trees Derive.tla derives from the recorded definition and validated by EKFCalls_Trace.tla. TLC also checks that only the ratio of prior covariance and sensor noise matters (InvScaleCov); every update-only behaviour is replayed again with all covariances and noises scaled by 2^-40. Half of the replays build a second filter from a different definition with the same names after the filter under test.",
         design_ref="DESIGN.md section 4 C05",
         note="Trusted: exact rational linear algebra incl. adjugate inverse (sizes 1-3); det S >= 1 conditioning window.",
         technique="TLA+ spec (Formak.tla UpdateAccept) + TLC simulation with invariants; spec->code replay into the Python EKF",
@@ -160,7 +160,7 @@ CHECKS = {
              "length 6). TLC-generated command sequences (set_params on every parameter, field, several names in one call, config plus field, "
              "unknown names; get-then-set, clone, queries, fit) are executed on a real adapter over three model universes and varied training "
              "data incl. a corpus on which scipy does not converge; the recorded events with projected parameter state are validated by TLC "
-             "against Estimator_Trace.tla (fit nondeterministic: FitOk / FitFail). Commands include export_python (the exported filter must carry the current configuration and noises by name) and fit_transform (= fit, then transform).",
+             "against Estimator_Trace.tla (fit nondeterministic: FitOk / FitFail). Commands include export_python (the exported filter must carry the current configuration and noises by name) and fit_transform (= fit, then transform). The specification has models whose controls are renamed (model and noise map exchanged in one call); fixed sequences fit / exchange / fit / exchange back / fit are executed.",
         design_ref="DESIGN.md section 4 C17",
         note="Trusted: the projection (tokens by identity / structural equality; noise maps as key set + finite + positive flags).",
         technique="TLA+ spec (Estimator.tla) generates command sequences; code->spec trace validation (Estimator_Trace.tla)",
